@@ -557,6 +557,9 @@ def mk_vcall(target, args, kwargs):
 
 
 def mk_sub(base, key):
+    # <f(x) for x in X>[k] is f(X[k]) for an unfiltered one-item comprehension
+    if base[0] == "comp" and key[0] == "c" and isinstance(key[1], int) and not base[4] and len(base[3]) == 1 and base[3][0][0] not in ("spread", "when") and (key[1] >= 0 or not has(base[3][0], "idx")) and not has(base[3][0], "first") and not has(base[3][0], "cidx"):
+        return subst_bv(base[3][0], base[1], mk_sub(base[2], key), key[1])
     # match.groupdict()[name] is match.group(name)
     if base[0] == "mcall" and base[2] == "groupdict" and not base[3] and key[0] == "c":
         return ("mcall", base[1], "group", (key,), ())
@@ -1749,6 +1752,9 @@ class AV:
                     args = tuple(_unwrap_seq(a) for a in args)
                 if name in ("any", "all") and len(args) == 1 and not kwargs:
                     return mk_anyall(name, args[0])
+                if name == "map" and len(args) == 2 and args[0] == ("sym", "str") and not kwargs:
+                    d_ = fr.binder + 1 + max_binder(args[1])
+                    return mk_comp(d_, args[1], (mk_s((("h", ("bv", d_)),)),))  # map(str, X) is (str(x) for x in X)
                 if False:
                     # any(any(c for y in Y) for x in X) is any over the flattened sequence
                     it_ = args[0][3][0]
@@ -2328,7 +2334,8 @@ def _flat_hole(v) -> str:
                 if it[0] == "spread" and it[1][0] == "comp":
                     cp = it[1]
                     cs = "".join(f" if {show(c)}" for c in cp[4])
-                    out.append(f"⟦for ${cp[1]} in {show(cp[2])}{cs}: " + sep.join(flatten(i) if _is_str(i) else HO + show(i) + HC for i in cp[3]) + "⟧")
+                    sp = f"|sep={sep!r}" if sep else ""
+                    out.append(f"⟦for ${cp[1]} in {show(cp[2])}{cs}{sp}: " + sep.join(flatten(i) if _is_str(i) else HO + show(i) + HC for i in cp[3]) + "⟧")
                 elif it[0] in ("spread", "when"):
                     out.append(HO + show(it) + HC)
                 else:
